@@ -57,6 +57,15 @@ func c20On[T any](name string, on func(ap.Item, func(*T) error) error) c20Helper
 	}}
 }
 
+// c20OnList: the same helper on a list that holds the nil item next to real members: the callback may be handed nil or a
+// real member, it must not crash getting there.
+func c20OnList[T any](name string, on func(ap.Item, func(*T) error) error) c20Helper {
+	return c20Helper{name + "(list)", []string{"list"}, func(it ap.Item) string {
+		_ = on(it, func(p *T) error { _ = p == nil; return nil })
+		return ""
+	}}
+}
+
 func c20To[T any](name string, to func(ap.Item) (*T, error)) c20Helper {
 	return c20Helper{name, []string{"top"}, func(it ap.Item) string {
 		p, err := to(it)
@@ -113,6 +122,63 @@ var c20Helpers = []c20Helper{
 	c20On("OnLink", func(it ap.Item, f func(*ap.Link) error) error { return ap.OnLink(it, f) }),
 	c20On("OnItemCollection", func(it ap.Item, f func(*ap.ItemCollection) error) error { return ap.OnItemCollection(it, f) }),
 	c20On("OnIRIs", func(it ap.Item, f func(*ap.IRIs) error) error { return ap.OnIRIs(it, f) }),
+	c20OnList("OnObject", func(it ap.Item, f func(*ap.Object) error) error { return ap.OnObject(it, f) }),
+	c20OnList("OnActor", func(it ap.Item, f func(*ap.Actor) error) error { return ap.OnActor(it, f) }),
+	c20OnList("OnActivity", func(it ap.Item, f func(*ap.Activity) error) error { return ap.OnActivity(it, f) }),
+	c20OnList("OnIntransitiveActivity", func(it ap.Item, f func(*ap.IntransitiveActivity) error) error {
+		return ap.OnIntransitiveActivity(it, f)
+	}),
+	c20OnList("OnQuestion", func(it ap.Item, f func(*ap.Question) error) error { return ap.OnQuestion(it, f) }),
+	c20OnList("OnCollection", func(it ap.Item, f func(*ap.Collection) error) error { return ap.OnCollection(it, f) }),
+	c20OnList("OnCollectionPage", func(it ap.Item, f func(*ap.CollectionPage) error) error { return ap.OnCollectionPage(it, f) }),
+	c20OnList("OnOrderedCollection", func(it ap.Item, f func(*ap.OrderedCollection) error) error { return ap.OnOrderedCollection(it, f) }),
+	c20OnList("OnOrderedCollectionPage", func(it ap.Item, f func(*ap.OrderedCollectionPage) error) error {
+		return ap.OnOrderedCollectionPage(it, f)
+	}),
+	c20OnList("OnPlace", func(it ap.Item, f func(*ap.Place) error) error { return ap.OnPlace(it, f) }),
+	c20OnList("OnProfile", func(it ap.Item, f func(*ap.Profile) error) error { return ap.OnProfile(it, f) }),
+	c20OnList("OnRelationship", func(it ap.Item, f func(*ap.Relationship) error) error { return ap.OnRelationship(it, f) }),
+	c20OnList("OnTombstone", func(it ap.Item, f func(*ap.Tombstone) error) error { return ap.OnTombstone(it, f) }),
+	c20OnList("OnLink", func(it ap.Item, f func(*ap.Link) error) error { return ap.OnLink(it, f) }),
+	c20OnList("OnItemCollection", func(it ap.Item, f func(*ap.ItemCollection) error) error { return ap.OnItemCollection(it, f) }),
+	c20OnList("OnIRIs", func(it ap.Item, f func(*ap.IRIs) error) error { return ap.OnIRIs(it, f) }),
+	c20OnList("On[Object]", func(it ap.Item, f func(*ap.Object) error) error { return ap.On[ap.Object](it, f) }),
+	c20OnList("On[*Object]", func(it ap.Item, f func(**ap.Object) error) error { return ap.On[*ap.Object](it, f) }),
+	{"To[T]/On[T]", []string{"top"}, func(it ap.Item) string {
+		_, _ = ap.To[ap.Object](it)
+		_, _ = ap.To[*ap.Object](it)
+		_, _ = ap.To[ap.IRI](it)
+		_ = ap.On[ap.Object](it, func(*ap.Object) error { return nil })
+		_ = ap.On[*ap.Actor](it, func(**ap.Actor) error { return nil })
+		return ""
+	}},
+	{"list-methods", []string{"list", "list1"}, func(it ap.Item) string {
+		// the read-only methods of the list type itself, on a list that holds the nil item
+		l, ok := it.(ap.ItemCollection)
+		if !ok {
+			return ""
+		}
+		_ = l.Count()
+		_ = l.First()
+		_ = l.Normalize()
+		_ = l.Collection()
+		_ = l.GetLink()
+		_ = l.ItemsMatch(ap.IRI("https://example.com/first"))
+		_ = l.Contains(ap.IRI("https://example.com/first"))
+		_ = l.Equals(l)
+		return ""
+	}},
+	{"OnCollectionIntf(list)", []string{"list"}, func(it ap.Item) string {
+		_ = ap.OnCollectionIntf(it, func(c ap.CollectionInterface) error {
+			if c != nil {
+				_ = c.Count()
+				_ = c.Collection()
+				_ = c.Contains(ap.IRI("https://example.com/first"))
+			}
+			return nil
+		})
+		return ""
+	}},
 	{"OnCollectionIntf", []string{"top"}, func(it ap.Item) string {
 		complaint := ""
 		_ = ap.OnCollectionIntf(it, func(c ap.CollectionInterface) error {
